@@ -192,6 +192,9 @@ func c04(c *core.Ctx) {
 			}
 		}
 		c.Check("calcBoxSubTxHashSet:every-subTx.Hash", "value-flow", okAll, cfn.Pos(), "the identity of every sub transaction of the list flows into the result")
+		// the identity is memoised: the memo holds nothing but what Hash computed from the content (a transaction decoded from the wire
+		// or from JSON must not bring its own identity along)
+		memoCache(c, "Transaction.hash-memo", c.FieldVar(typ+".Transaction", "hash"), hfn, rlp)
 	})
 
 	// -----------------------------------------------------------------------------------------
@@ -866,17 +869,67 @@ func c04(c *core.Ctx) {
 				}
 			}
 			c.Check("DelOldBlocks:Expire(newStableTime−MaxTxLifeTime)", "quantity-guard", ok, g.Pos(), "the expiry bound is the new stable block's time minus MaxTxLifeTime")
-			for _, d := range core.CallsIn(fn, c.Method(pool+".TxTracer", "DelTrace"), c.Method(pool+".BlockCache", "Del")) {
-				okD := false
-				for _, x := range c4Args(d) {
-					if core.Slice(x)[g.Value()] {
-						okD = true
+		}
+		// every forgetting step anywhere in the program (TxTracer.DelTrace drops the whole trace of a transaction, BlockCache.Del the block)
+		// is fed by the expiry: its argument derives from an Expire result, directly or through the parameters of helpers all of whose
+		// callers pass such a value. A block that is dropped for another reason (a pruned fork) shares unexpired transactions with the
+		// winning branch, and DelTrace would erase their trace there as well.
+		expire := c.Method(pool+".TimeBuckets", "Expire")
+		var fromExpiry func(fn *ssa.Function, v ssa.Value, depth int) bool
+		fromExpiry = func(fn *ssa.Function, v ssa.Value, depth int) bool {
+			sl := core.Slice(v)
+			if core.SliceHasCall(sl, expire) {
+				return true
+			}
+			if depth > 3 {
+				return false
+			}
+			hasRecv := fn.Signature.Recv() != nil
+			var idx []int
+			for i, p := range fn.Params {
+				if hasRecv && i == 0 {
+					continue
+				}
+				if sl[p] {
+					idx = append(idx, i)
+				}
+			}
+			fo, _ := fn.Object().(*types.Func)
+			if len(idx) == 0 || fo == nil {
+				return false
+			}
+			_, sites := callersOf(c, fo)
+			if len(sites) == 0 {
+				return false
+			}
+			for _, s := range sites {
+				args := s.Instr.Common().Args
+				if s.Instr.Common().IsInvoke() {
+					return false
+				}
+				for _, i := range idx {
+					if i >= len(args) || !fromExpiry(s.Caller, args[i], depth+1) {
+						return false
 					}
 				}
-				c.Check("DelOldBlocks:"+objName(core.CalleeObj(d))+"(expired only)", "value-flow", okD, d.Pos(), "only blocks returned by the expiry, and their transactions, are forgotten")
 			}
+			return true
 		}
-		c.Floor("DelOldBlocks/forgetters", len(core.CallsIn(fn, c.Method(pool+".TxTracer", "DelTrace"), c.Method(pool+".BlockCache", "Del"))), 2)
+		// (BlockCache.Del is not held to this: a missing block makes the ancestor walk fail, which rejects, it does not admit a replay)
+		_, fsites := callersOf(c, c.Method(pool+".TxTracer", "DelTrace"))
+		fseq := map[string]int{}
+		for _, d := range fsites {
+			okD := false
+			for _, x := range c4Args(d.Instr) {
+				if fromExpiry(d.Caller, x, 0) {
+					okD = true
+				}
+			}
+			k := objName(core.CalleeObj(d.Instr)) + "@" + shortFn(d.Caller)
+			fseq[k]++
+			c.Check("forget:"+k+seqSuffix(fseq[k])+"(expired only)", "value-flow", okD, d.Instr.Pos(), "only blocks returned by the expiry, and their transactions, are forgotten (interprocedural: the argument derives from TimeBuckets.Expire in this function or in every caller that supplies it)")
+		}
+		c.Floor("forgetters", len(fsites), 1)
 		// the stable change is what drives it, with the stable block's own time
 		osc := c.Fn(cons + ".DPoVP.onStableChanged")
 		for _, g := range core.CallsIn(osc, c.Method(pool+".TxGuard", "DelOldBlocks")) {
